@@ -10,7 +10,7 @@ HEADER = "From Coq Require Import ZArith List.\nFrom TV Require Import Common.Ha
 CASE_T = "C12.Corr.case"
 PROPS = ["C12/Props.v"]
 CLAUSE = {1: "stale-read", 2: "getter-ran-twice", 3: "change-not-notified", 4: "event-announces-stale-value"}
-PNAMES = ["scalar", "child", "kids", "dict", "set", "nums", "nested", "kidchild", "multi", "chain", "mitems", "sitems", "raw", "xscalar", "area", "maybe", "tname"]
+PNAMES = ["scalar", "child", "kids", "dict", "set", "nums", "nested", "kidchild", "multi", "chain", "mitems", "sitems", "raw", "xscalar", "area", "maybe", "tname", "meta", "trans"]
 KEYS = ["ka", "kb", "kc"]
 
 
@@ -39,7 +39,10 @@ def to_term(case, obs):
         h.append((kind_term(op, ob),
                   C("mkI", opt(ob["val"]), ob["oracle"], list(ob["view"]), Nat(ob["getter"]),
                     [(opt(e[0]), e[1]) for e in ob["events"]], Nat(d), opt(ob["cache"]))))
-    return C("mkCase", bool(case["cached"]), not case.get("added"), (list(obs["init_view"]), obs["init_oracle"]), h)
+    # c_hooked = false (interface check, code 8, skipped; the model follows the observed deliveries; the LAW decides):
+    # the families of the known findings F23 (property added with add_trait) and `afterreset` (double hook after del / reset)
+    hooked = not case.get("added") and not case.get("afterreset")
+    return C("mkCase", bool(case["cached"]), hooked, (list(obs["init_view"]), obs["init_oracle"]), h)
 
 
 def shape(op):
@@ -53,6 +56,8 @@ def shape(op):
 
 
 def key_fn(case, obs, step, clause):
+    if case.get("afterreset"):
+        return "%s/afterreset" % CLAUSE.get(clause, clause)
     return "%s/%s/%s/%s" % (CLAUSE.get(clause, clause), case["prop"],
                             ("added-by-add_%strait-" % ("class_" if case["added"] == "class" else "") if case.get("added")
                              else "") +
@@ -79,8 +84,13 @@ def nontrivial(case, obs):
 RELEVANT = {  # traits whose mutation matters for each property (steers the generator only)
     "scalar": ["value"], "child": ["child", "value"], "kids": ["kids", "value"], "dict": ["m", "value"],
     "set": ["s", "value"], "nums": ["nums"], "nested": ["child", "kids", "value"],
-    "kidchild": ["kids", "child", "value"], "multi": ["value", "child", "nums"], "chain": ["value"], "mitems": ["m"], "sitems": ["s"], "raw": ["raw"], "xscalar": ["value"], "area": ["value", "other"], "maybe": ["value"], "tname": ["value"],
+    "kidchild": ["kids", "child", "value"], "multi": ["value", "child", "nums"], "chain": ["value"], "mitems": ["m"], "sitems": ["s"], "raw": ["raw"], "xscalar": ["value"], "area": ["value", "other"], "maybe": ["value"], "tname": ["value"], "meta": ["off0", "off1"], "trans": ["tval"],
 }
+
+
+class _Never(set):
+    def add(self, x):
+        pass
 
 
 def gen_case(rnd, ctx, maxlen):
@@ -106,6 +116,11 @@ def gen_case(rnd, ctx, maxlen):
     # default value (reported to the coordinator as a candidate finding), so items added to it would be hooked twice;
     # until the trait is assigned again only whole-value assignments are generated for it
     frozen = set()
+    # ... except in the family `afterreset` (known finding: the double hook of the new default), where nothing is held
+    # back; its failures are keyed by the family, not by property and operation
+    ar = rnd.random() < 0.05
+    if ar:
+        frozen = _Never()
     for _ in range(rnd.randint(2, maxlen)):
         r = rnd.random()
         if r < 0.34:
@@ -148,7 +163,7 @@ def gen_case(rnd, ctx, maxlen):
                 ctx.count("op:SetRaw")
                 continue
             mode = rnd.random()
-            if tr in ("value", "other"):
+            if tr in ("value", "other", "off0", "off1", "tval"):
                 op = ["Set", i, tr, rnd.randint(0, 5)]
             elif tr == "child":
                 op = ["Set", i, "child", rnd.choice(hi + [None])]
@@ -253,7 +268,9 @@ def gen_case(rnd, ctx, maxlen):
     ctx.count("property-redeclared-in-subclass:%s" % redecl)
     kw = rnd.random() < 0.3
     ctx.count("constructed-with-kwargs:%s" % kw)
-    return dict(prop=pname, cached=cached, n=n, init=init, ops=ops, kwargs=kw, sub=sub, redecl=redecl)
+    afterreset = ar and any(o[0] == "Reset" for o in ops)
+    ctx.count("family-afterreset:%s" % afterreset)
+    return dict(prop=pname, cached=cached, n=n, init=init, ops=ops, kwargs=kw, sub=sub, redecl=redecl, afterreset=afterreset)
 
 
 def corpus():
@@ -347,7 +364,23 @@ def corpus():
                            ops=[["Read"], ["Listen", "observe"], ["SInter", 0, "s", [[1], [2]]], ["Read"], ["Set", 1, "value", 4],
                                 ["Read"], ["SUpdate", 0, "s", [[1, 2], [2]]], ["Read"], ["SInter", 0, "s", [[1, 2], [2], [2, 1]]],
                                 ["Read"], ["Set", 1, "value", 3], ["Read"], ["SDiff", 0, "s", [[1], [2]]], ["Read"]]))
-    # a getter that legitimately returns None, read repeatedly without a change in between
+    # KNOWN FINDING (always included), family afterreset: the minimal script -- del obj.m, an item put into the new default,
+    # del obj.m again, the departed item changes: the handler still fires (getter runs again, event (v, v))
+    for cached in (True, False):
+        for tr, pn, add in (("m", "dict", ["DSet", 0, "m", "kb", 2]), ("kids", "kids", ["Append", 0, "kids", 2]),
+                            ("s", "set", ["SAdd", 0, "s", 2])):
+            for how in (0, 1):
+                cs.append(dict(prop=pn, cached=cached, n=3, init=tri, afterreset=True,
+                               ops=[["Read"], ["Listen", "observe"], ["Reset", 0, tr, how], add, ["Read"], ["Reset", 0, tr, how],
+                                    ["Read"], ["Set", 2, "value", 4], ["Read"], ["Read"]]))
+    # metadata-selected dependencies (the metadata value of one of them is 0) and a transient dependency across copies
+    for cached in (True, False):
+        cs.append(dict(prop="meta", cached=cached, n=3, init=tri,
+                       ops=[["Read"], ["Listen", "observe"], ["Set", 0, "off0", 4], ["Read"], ["Set", 0, "off1", 2], ["Read"],
+                            ["Set", 0, "off0", 1], ["Read"], ["Read"]]))
+    for mode in (["Copy", "pickle", 2], ["Copy", "pickle", 5], ["Copy", "shallow"], ["Copy", "deepcopy"], ["Copy", "clone"]):
+        cs.append(dict(prop="trans", cached=True, n=3, init=tri,
+                       ops=[["Set", 0, "tval", 5], ["Read"], mode, ["Read"], ["Read"], ["Set", 0, "tval", 3], ["Read"], mode, ["Read"]]))
     cs.append(dict(prop="maybe", cached=True, n=2, init=dup,
                    ops=[["Set", 0, "value", 2], ["Read"], ["Read"], ["Read"], ["Listen", "observe"], ["Set", 0, "value", 3], ["Read"],
                         ["Read"], ["Set", 0, "value", 4], ["Read"], ["Read"]]))
